@@ -760,7 +760,7 @@ class Flow:
             return next(iter(ds))
         return None
 
-    def inline(self, expr, at_ast=None, depth=6, stop=()):
+    def inline(self, expr, at_ast=None, depth=60, stop=()):
         """Replace local Names by their unique simple reaching definition (recursively)."""
         at_ast = expr if at_ast is None else at_ast
         try:
@@ -804,13 +804,10 @@ class Flow:
                                 if d2.name in fvs or d2.name == node.id:
                                     return False
                     return True
-                if not movable(d.value):
-                    return node
                 inner = flow._inline_at(d.value, d.node, depth - 1, stop)
                 if movable(inner):
                     return inner
-                import copy as _copy
-                return _copy.deepcopy(d.value)
+                return node
 
         import copy
         return T().visit(copy.deepcopy(expr)) if not isinstance(expr, ast.Name) else T().visit_Name(expr)
